@@ -82,12 +82,37 @@ package martian
 //@ ensures result != nil && result.Header != nil && result.Request == req && result.StatusCode >= 400
 //@ ensures result.StatusCode == 407 ==> hasPA(result.Header)
 
-//@ ghost fn connectErrRes(error) *http.Response
-//@ func maybeConnectErrorResponse
-//@ trusted
+// A rejected CONNECT at an upstream proxy travels as a connectError that holds
+// the proxy's own reply (C12): its status (never an informational one).
+//@ func OnProxyConnectResponse
+//@ property C12
+//@ requires req != nil && connectRes != nil
+//@ modifies *
+//@ preserves http.Response.StatusCode http.Response.Request
+//@ ensures old(connectRes.StatusCode) / 100 == 2 ==> result == nil
+//@ ensures old(connectRes.StatusCode) / 100 != 2 ==> result is *connectError && result.(*connectError).res != nil && result.(*connectError).res.Header != nil == (old(connectRes.Header) != nil) && result.(*connectError).res.ContentLength >= 0
+//@ ensures old(connectRes.StatusCode) / 100 != 2 && old(connectRes.StatusCode) >= 200 ==> result.(*connectError).res.StatusCode == old(connectRes.StatusCode)
+//@ ensures old(connectRes.StatusCode) < 200 ==> result.(*connectError).res.StatusCode == 502
+
+//@ func (*connectError).ConnectResponse
+//@ property C12
+//@ requires e != nil
 //@ pure
-//@ ensures result == connectErrRes(err)
-//@ ensures result != nil ==> result.Header != nil && result.StatusCode / 100 != 2 && result.StatusCode != 101 && result.Request != nil
+//@ ensures result == e.res
+
+// maybeConnectErrorResponse: that reply if the error carries one, nil otherwise;
+// it answers the request the client sent, in that request's protocol version.
+// (assumption wfConnectErr, from errors.As: a connectError found in an error
+// chain is as OnProxyConnectResponse built it - reply present, with a header
+// map and a final, non-2xx status.)
+//@ pred wfConnectErr(e *connectError) = e.res != nil && e.res.Header != nil && e.res.StatusCode >= 200 && e.res.StatusCode / 100 != 2
+//@ func maybeConnectErrorResponse
+//@ property C12
+//@ requires req != nil
+//@ modifies http.Response.Request, http.Response.Proto, http.Response.ProtoMajor, http.Response.ProtoMinor
+//@ ensures (result == nil) == (asConnectErr(err) == nil)
+//@ ensures result != nil ==> result == old(asConnectErr(err).res) && result.Request == req && result.ProtoMajor == req.ProtoMajor && result.ProtoMinor == req.ProtoMinor
+//@ ensures result != nil ==> result.Header != nil && result.StatusCode >= 200 && result.StatusCode / 100 != 2
 
 // (the MITM filter is a user-supplied predicate)
 //@ func (*Proxy).shouldMITM
@@ -105,11 +130,16 @@ package martian
 //@ modifies *
 //@ preserves proxyConn.* Proxy.* bufio.ReadWriter.* http.Response.StatusCode http.Response.Request http.Request.Method http.Response.Header http.Request.Header http.Request.URL http.Request.Body http.Response.Body
 
-// (reads the error only)
+// Error classification helpers (C12): no error is never a reason to close.
 //@ func isClosedConnError
-//@ trusted
-//@ modifies *
-//@ preserves proxyConn.* Proxy.* bufio.ReadWriter.* http.Response.StatusCode http.Response.Request http.Request.Method http.Response.Header http.Request.Header http.Request.URL http.Request.Body http.Response.Body http.Response.Close http.Request.Close maps(http.Header)
+//@ property C12
+//@ pure
+//@ ensures err == nil ==> !result
+
+//@ func isCloseable
+//@ property C12
+//@ pure
+//@ ensures err == nil ==> !result
 
 //@ func newConnectResponse
 //@ trusted
@@ -165,10 +195,19 @@ package martian
 // I/O on the client connection and message serialisation (net, bufio, net/http):
 // arbitrary effects on memory, but they never rewrite the status, method or
 // close flags of the messages they are given.
-//@ func (net.Conn).SetWriteDeadline, (net.Conn).SetReadDeadline, (*bufio.ReadWriter).Flush, (*bufio.Writer).Flush, (*http.Response).Write, writeConnectOKResponse, writeHeaderOnlyResponse, isTextEventStream, newPatternFlushWriter, (*proxyConn).writeResponse$1, drainBuffer, bicopy, ContextDuration, (*http.Request).Context, (io.Closer).Close, (io.ReadCloser).Close, (io.ReadWriteCloser).Close
+//@ func (net.Conn).SetWriteDeadline, (net.Conn).SetReadDeadline, isTextEventStream, newPatternFlushWriter, (*proxyConn).writeResponse$1, drainBuffer, bicopy, ContextDuration, (*http.Request).Context, (io.Closer).Close, (io.ReadCloser).Close, (io.ReadWriteCloser).Close
 //@ trusted
 //@ modifies *
 //@ preserves http.Response.StatusCode http.Response.Close http.Response.Request http.Request.Method http.Request.Close http.Response.Header http.Request.Header http.Request.URL http.Request.Body http.Response.Body proxyConn.* Proxy.* bufio.ReadWriter.* maps(http.Header)
+
+// The writers of the response head and body: a failure is remembered (C12:
+// after a failed write nothing more is sent on the connection).
+//@ ghost ivar wErr() bool
+//@ func (*bufio.ReadWriter).Flush, (*bufio.Writer).Flush, (*http.Response).Write, writeConnectOKResponse, writeHeaderOnlyResponse
+//@ trusted
+//@ modifies *, wErr()
+//@ preserves http.Response.StatusCode http.Response.Close http.Response.Request http.Request.Method http.Request.Close http.Response.Header http.Request.Header http.Request.URL http.Request.Body http.Response.Body proxyConn.* Proxy.* bufio.ReadWriter.* maps(http.Header)
+//@ ensures wErr() == (old(wErr()) || result != nil)
 
 //@ pred deferredReport(method string, status int) = (method == "CONNECT" && status / 100 == 2) || (method != "CONNECT" && status == 101)
 
@@ -177,10 +216,10 @@ package martian
 // is made when the tunnel ends; nil is returned only if the response was
 // flushed and the connection may be reused (never while shutting down).
 //@ func (*proxyConn).writeResponse
-//@ property C13 C02 C11 C04
+//@ property C13 C02 C11 C04 C12
 //@ ghostset wrotePA() := old(hasPA(res.Header))
 //@ requires p != nil && p.Proxy != nil && p.conn != nil && p.brw != nil && p.brw.Writer != nil && res != nil && res.Request != nil && res.Header != nil
-//@ modifies *, nWrote(), wroteStatus(), sawClosing(), wrotePA()
+//@ modifies *, nWrote(), wroteStatus(), sawClosing(), wrotePA(), wErr()
 //@ preserves proxyConn.Proxy proxyConn.brw proxyConn.conn Proxy.* bufio.ReadWriter.* http.Response.StatusCode http.Response.Request http.Request.Method
 //@ ensures nWrote() == old(nWrote()) || nWrote() == old(nWrote()) + 1
 //@ ensures !deferredReport(old(res.Request.Method), old(res.StatusCode)) ==> nWrote() == old(nWrote()) + 1 && wroteStatus() == old(res.StatusCode)
@@ -195,6 +234,9 @@ package martian
 //@ ensures old(res.Close) && !deferredReport(old(res.Request.Method), old(res.StatusCode)) ==> result != nil && res.Close
 //@ ensures result == nil ==> !res.Close || deferredReport(old(res.Request.Method), old(res.StatusCode))
 //@ ensures res.Close ==> ("Connection" in res.Header)
+// C12: a failed write closes the connection - nothing follows a truncated response.
+//@ ensures result == nil || result == errClose
+//@ ensures wErr() && !old(wErr()) ==> result == errClose
 
 // writeErrorResponse: a locally generated (or relayed upstream-proxy) error is
 // reported exactly once.
@@ -211,10 +253,10 @@ package martian
 //@ func (*proxyConn).writeErrorResponse
 //@ property C13 C12 C04
 //@ requires p != nil && p.Proxy != nil && p.conn != nil && p.brw != nil && p.brw.Writer != nil && req != nil
-//@ modifies *, nWrote(), wroteStatus(), sawClosing(), wrotePA()
+//@ modifies *, nWrote(), wroteStatus(), sawClosing(), wrotePA(), wErr()
 //@ preserves proxyConn.Proxy proxyConn.brw proxyConn.conn Proxy.* bufio.ReadWriter.* http.Response.StatusCode http.Response.Request http.Request.Method
 //@ ensures nWrote() == old(nWrote()) + 1
-//@ ensures connectErrRes(err) == nil && wroteStatus() == 407 ==> wrotePA()
+//@ ensures asConnectErr(err) == nil && wroteStatus() == 407 ==> wrotePA()
 
 // tunnel: the reply is written; whether the copy happens or not, the exchange
 // is reported complete exactly once (here or by writeResponse on failure).
@@ -222,7 +264,7 @@ package martian
 //@ property C13 C03
 //@ requires p != nil && p.Proxy != nil && p.conn != nil && p.brw != nil && p.brw.Writer != nil && res != nil && res.Request != nil && res.Header != nil
 //@ requires deferredReport(res.Request.Method, res.StatusCode)
-//@ modifies *, nWrote(), wroteStatus(), sawClosing(), wrotePA()
+//@ modifies *, nWrote(), wroteStatus(), sawClosing(), wrotePA(), wErr()
 //@ preserves proxyConn.Proxy proxyConn.brw proxyConn.conn Proxy.* bufio.ReadWriter.* http.Response.StatusCode http.Response.Request http.Request.Method
 //@ ensures !sawClosing() ==> nWrote() == old(nWrote()) + 1
 //@ ensures nWrote() == old(nWrote()) || nWrote() == old(nWrote()) + 1
@@ -230,7 +272,7 @@ package martian
 //@ func (*proxyConn).handleUpgradeResponse
 //@ property C13 C03
 //@ requires p != nil && p.Proxy != nil && p.conn != nil && p.brw != nil && p.brw.Writer != nil && res != nil && res.Request != nil && res.Header != nil && res.StatusCode == 101 && res.Request.Method != "CONNECT"
-//@ modifies *, nWrote(), wroteStatus(), sawClosing(), wrotePA()
+//@ modifies *, nWrote(), wroteStatus(), sawClosing(), wrotePA(), wErr()
 //@ preserves proxyConn.Proxy proxyConn.brw proxyConn.conn Proxy.* bufio.ReadWriter.* http.Response.StatusCode http.Response.Request http.Request.Method
 //@ ensures (!sawClosing() ==> nWrote() == old(nWrote()) + 1) && result != nil
 //@ ensures nWrote() == old(nWrote()) || nWrote() == old(nWrote()) + 1
@@ -248,7 +290,7 @@ package martian
 //@ func (*proxyConn).handleMITM
 //@ property C13 C04
 //@ requires p != nil && p.Proxy != nil && p.conn != nil && p.brw != nil && p.brw.Writer != nil && p.brw.Reader != nil && p.MITMConfig != nil && req != nil && req.Method == "CONNECT" && req.URL != nil
-//@ modifies *, nWrote(), wroteStatus(), sawClosing(), wrotePA()
+//@ modifies *, nWrote(), wroteStatus(), sawClosing(), wrotePA(), wErr()
 //@ preserves Proxy.* http.Request.Method
 //@ ensures nWrote() == old(nWrote()) + 1 || (sawClosing() && nWrote() == old(nWrote()))
 //@ ensures upstream() == old(upstream())
@@ -259,7 +301,7 @@ package martian
 //@ func (*proxyConn).handleConnectRequest
 //@ property C13 C04
 //@ requires p != nil && p.Proxy != nil && p.conn != nil && p.brw != nil && p.brw.Writer != nil && p.brw.Reader != nil && req != nil && req.Method == "CONNECT" && req.URL != nil && req.Header != nil
-//@ modifies *, nWrote(), wroteStatus(), sawClosing(), modReqFailed(), upstream(), wrotePA()
+//@ modifies *, nWrote(), wroteStatus(), sawClosing(), modReqFailed(), upstream(), wrotePA(), wErr()
 //@ preserves Proxy.*
 //@ ensures nWrote() == old(nWrote()) + 1 || (sawClosing() && nWrote() == old(nWrote()))
 //@ ensures modReqFailed() ==> upstream() == old(upstream()) && nWrote() == old(nWrote()) + 1
@@ -271,7 +313,7 @@ package martian
 //@ func (*proxyConn).handle
 //@ property C13 C04 C11
 //@ requires p != nil && p.Proxy != nil && p.conn != nil && p.brw != nil && p.brw.Writer != nil && p.brw.Reader != nil
-//@ modifies *, nRead(), nWrote(), wroteStatus(), sawClosing(), modReqFailed(), upstream(), readOK(), wrotePA()
+//@ modifies *, nRead(), nWrote(), wroteStatus(), sawClosing(), modReqFailed(), upstream(), readOK(), wrotePA(), wErr()
 //@ ensures nRead() == old(nRead()) + 1
 //@ ensures readOK() && !sawClosing() ==> nWrote() == old(nWrote()) + 1
 //@ ensures !readOK() ==> nWrote() == old(nWrote()) && upstream() == old(upstream())
